@@ -341,8 +341,58 @@ def run_corr(p, start, tau):
             "log": log.entries, "times_a": ta, "times_b": tb}
 
 
+_GUESS_BATH = None
+
+
+def run_guess(p, start, tau):
+    """library-estimated parameters: guess_tempo_parameters(system=...) and, with p['compute'],
+    tempo_compute(parameters=None) for a driven two level system whose pulse limits dt"""
+    import oqupy
+    global _GUESS_BATH
+    o = _ops()
+    log = TLog()
+    c0, w, amp = p["pulse"], p.get("width", 0.4), p.get("amp", 2.0)
+
+    def ham(t):
+        log("hamiltonian", t)
+        u = float(t) - tau
+        return 0.1 * o.sz + amp * np.exp(-((u - c0) / w) ** 2) * o.sx
+
+    def gam(t):
+        log("rate", t)
+        return 0.05 * (1.0 + np.tanh(float(t) - tau - 1.5))
+
+    def lop(t):
+        log("lindblad", t)
+        return o.sm
+    sysm = oqupy.TimeDependentSystem(ham, gammas=[gam], lindblad_operators=[lop])
+    if _GUESS_BATH is None:
+        corr = oqupy.PowerLawSD(alpha=0.05, zeta=1.0, cutoff=2.0, cutoff_type="exponential",
+                                temperature=0.0)
+        _GUESS_BATH = oqupy.Bath(0.5 * o.sz, corr)
+    end = start + p["duration"]
+    log.clear()
+    par = oqupy.guess_tempo_parameters(bath=_GUESS_BATH, start_time=start, end_time=end,
+                                       system=sysm, tolerance=p["tolerance"])
+    out = {"times": [], "values": {"estimated-parameters": np.array([par.dt, float(par.dkmax), par.epsrel])},
+           "tols": {"estimated-parameters": 1e-12, "states": 1e-5},
+           "guess_log": list(log.entries), "end": end}
+    if p.get("compute"):
+        with QuadPatch(log):
+            dyn = oqupy.tempo_compute(system=sysm, bath=_GUESS_BATH, initial_state=o.up,
+                                      start_time=start, end_time=end, tolerance=p["tolerance"],
+                                      progress_type="silent")
+        out["times"] = [float(t) for t in dyn.times]
+        out["values"]["states"] = np.array(dyn.states)
+    out["log"] = log.entries
+    return out
+
+
+GENERIC_APIS = ["tempo", "mft", "pt+compute_dynamics", "compute_dynamics_with_field",
+                "compute_correlations"]
 RUNNERS = {"tempo": run_tempo, "mft": run_mft, "pt+compute_dynamics": run_pt_cd,
-           "compute_dynamics_with_field": run_cdwf, "compute_correlations": run_corr}
+           "compute_dynamics_with_field": run_cdwf, "compute_correlations": run_corr,
+           "guess_tempo_parameters": run_guess, "tempo_compute": run_guess}
 
 
 def scale(*xs):
@@ -375,7 +425,7 @@ def differential(api, p, start, tau):
         else:
             m = np.isnan(v) & np.isnan(w)
             d = np.abs(np.where(m, 0, v - w))
-            if np.isnan(d).any() or (d.size and d.max() > TOL_VAL):
+            if np.isnan(d).any() or (d.size and d.max() > base.get("tols", {}).get(name, TOL_VAL)):
                 idx = int(np.nanargmax(np.where(np.isnan(d), np.inf, d))) if d.size else 0
                 worst = float(np.nanmax(d)) if not np.isnan(d).all() else float("nan")
                 bad.append((name, "%s differ by %.3e (flat index %d)" % (name, worst, idx)))
@@ -421,7 +471,7 @@ def gen_cases(rng, tier):
         out = rng.sample(TAUS, min(k, len(TAUS)))
         out += [rng.uniform(-20, 20) for _ in range(max(0, k - len(out)))]
         return out
-    for api in RUNNERS:
+    for api in GENERIC_APIS:
         for j in range(nper):
             dt = rng.choice([0.1, 0.2, 0.05, 0.13])
             n = rng.choice([2, 3]) if tier == "quick" else rng.choice([2, 3, 4])
@@ -450,7 +500,24 @@ def gen_cases(rng, tier):
                 cases.append((api, p, start, tau))
     cases += typed_cases(rng, 1 if tier == "quick" else 3)
     cases += far_cases(rng, 1 if tier == "quick" else 3)
+    cases += guess_cases(rng, tier)
     return cases
+
+
+def guess_cases(rng, tier):
+    """library-estimated parameters for a pulse that limits dt; shifts that move the pulse out of
+    a window that would wrongly be taken relative to t = 0"""
+    out = []
+    base = {"pulse": 1.0, "duration": 3.0, "tolerance": 5.0e-2}
+    taus = [4.5, -2.6, 2.6, 1.7]
+    picks = [rng.choice(taus[:3])] if tier == "quick" else taus
+    out.append(("tempo_compute", dict(base, compute=True), 0.0, picks[0]))
+    for tau in (taus if tier != "quick" else [t for t in taus[:3] if t != picks[0]]):
+        out.append(("guess_tempo_parameters", dict(base, pulse=rng.choice([1.0, 0.8, 2.1])), 0.0, tau))
+    if tier != "quick":
+        for tau in picks[1:3]:
+            out.append(("tempo_compute", dict(base, compute=True, duration=2.0), 0.5, tau))
+    return out
 
 
 TYPED_APIS = ["tempo", "pt+compute_dynamics", "compute_dynamics_with_field", "mft"]
@@ -588,11 +655,11 @@ def py_eval_site(src, site, fvals, ivals):
             env[nm[4:]] = [0] * ints[nm]
     val = eval(src, env)                       # noqa: S307 - source text of /repo under test
     if isinstance(val, np.ndarray):
-        val = val[-1]
+        val = val[ints["k"]] if "linspace" in src else val[-1]
     return float(val)
 
 
-def gen_site_inputs(rng, site):
+def gen_site_inputs(rng, site, src=""):
     dt = rng.choice([0.1, 0.01, 0.2, 0.37, 0.25, 0.05, rng.uniform(1e-3, 2.0)])
     start = rng.choice([0.0, 0.5, -0.3, 1.7, rng.uniform(-50, 50)])
     k = rng.randrange(0, 3000)
@@ -611,6 +678,12 @@ def gen_site_inputs(rng, site):
     ivals = []
     for v in site.ivars:
         ivals.append(rng.randrange(0, 3000) if v != "start_step" else rng.randrange(0, 50))
+    if "num" in site.ivars and "k" in site.ivars:       # element k < num-1 of a linspace
+        num = rng.randrange(11, 90)
+        ivals[site.ivars.index("num")] = num
+        ivals[site.ivars.index("k")] = rng.randrange(0, num - 1)
+    elif "k" in site.ivars and "linspace" in src:
+        ivals[site.ivars.index("k")] = rng.randrange(0, 10)     # np.linspace(0, max_tau, 11)
     return fvals, ivals
 
 
@@ -643,7 +716,7 @@ def check_sites(res, table, rng, tier):
             continue
         done = 0
         for _ in range(reps):
-            fvals, ivals = gen_site_inputs(rng, site)
+            fvals, ivals = gen_site_inputs(rng, site, src)
             try:
                 got = py_eval_site(src, site, fvals, ivals)
             except Exception:           # source text not evaluable stand-alone
@@ -706,6 +779,8 @@ EXPECTED_VARS = {
     "_parse_times__index_start": (["times_0", "start_time", "dt"], []),
     "_parse_times__index_end": (["times_1", "start_time", "dt"], []),
     "compute_correlations_nt__times2": (["start_time", "dt_"], ["times"]),
+    "_estimate_dt_from_system__times_1": (["start_time", "end_time"], ["num", "k"]),
+    "_estimate_dt_from_system__times_2": (["start_time", "end_time"], ["num", "k"]),
 }
 
 
@@ -755,6 +830,12 @@ class Oracle:
 
 def predict_stage1(orc, api, p, start):
     """base times of every step (needs only the inputs)"""
+    if api in ("guess_tempo_parameters", "tempo_compute"):
+        end = start + p["duration"]
+        return {"lin": [orc.want("_estimate_dt_from_system__times_1", [start, end], [11, k])
+                        for k in range(10)]
+                + [orc.want("_estimate_dt_from_system__times_2", [start, end], [22, k])
+                   for k in range(21)]}
     n, dt = p["n"], p["dt"]
     h = {}
     var = 1 if p["subdiv"] is None else 2
@@ -783,6 +864,8 @@ def predict_stage1(orc, api, p, start):
 
 def predict_stage2(orc, api, p, start, h, res_run):
     """times derived from the base times"""
+    if api in ("guess_tempo_parameters", "tempo_compute"):
+        return {}
     dt = p["dt"]
     g = {}
     fam = "TimeDependentSystem" if api in ("tempo", "pt+compute_dynamics", "compute_correlations") \
@@ -827,6 +910,14 @@ def judge_run(res, orc, api, p, start, h, g, run, tag):
     def dis(what, **kw):
         res.disagree("%s (%s, start=%r): %s" % (api, tag, start, what),
                      dict(api=api, params=p, start=start, **kw))
+    if "lin" in h:
+        # guess_tempo_parameters samples the callables on linspace(start, end, 11), then 22, ...
+        got = set(t for c, t in run["guess_log"] if c == "hamiltonian")
+        want = set(orc.get(l) for l in h["lin"]) | {run["end"]}
+        if not want <= got:
+            dis("guess_tempo_parameters does not sample the Hamiltonian at the generated linspace "
+                "times", impl=sorted(got)[:40], model=sorted(want))
+        return
     logged = {}
     for c, t in run["log"]:
         logged.setdefault(c, []).append(t)
@@ -919,12 +1010,13 @@ def correspondence(res, tier, rng):
     runs = []
     for (api, p, start, tau) in cases:
         bad, base, shif, tau_eff = differential(api, p, start, tau)
-        kind = ("tau>0" if tau > 0 else "tau<0") + ("" if abs(tau / p["dt"] - round(tau / p["dt"])) < 1e-9
-                                                    else ",not-multiple-of-dt")
+        kind = ("tau>0" if tau > 0 else "tau<0") + (
+            "" if "dt" in p and abs(tau / p["dt"] - round(tau / p["dt"])) < 1e-9
+            else ",not-multiple-of-dt")
         res.count("run:%s%s" % (api, ":typed-callables" if p.get("typed") is not None else
                                 ":far-origin" if abs(tau) >= 1000 else ""))
         res.count("shift:" + kind)
-        res.count("subdiv:%s" % ("None" if p["subdiv"] is None else "quad_vec"))
+        res.count("subdiv:%s" % ("None" if p.get("subdiv", 256) is None else "quad_vec"))
         res.case("run %s %s start=%r tau=%r" % (api, json.dumps(p, sort_keys=True), start, tau), True,
                  {"api": api, "start": start, "tau": tau, "calls_logged": len(base["log"]),
                   "reported_times": len(base["times"])})
@@ -970,7 +1062,7 @@ def search(res, rng=None):
     cases = seeds + gen_cases(rng, "quick")
     # a fixed, simple family first: every method, tau positive / negative / not a multiple of dt
     fixed = []
-    for api in RUNNERS:
+    for api in GENERIC_APIS:
         for sub in (None, 64):
             p = {"dt": 0.1, "n": 3, "subdiv": sub, "frac": 0.0, "record_all": True,
                  "controls": [(1, 0.2, 0, 0), (2, -0.3, 1, 1)], "step_controls": [(0, 0)],
@@ -987,6 +1079,11 @@ def search(res, rng=None):
             fixed.insert(0, (api, {"dt": 0.1, "n": 12, "subdiv": None, "frac": 0.0, "typed": ub,
                                    "record_all": True, "controls": [], "step_controls": [],
                                    "real_pt": False}, 0.0, tau))
+    for tau in (4.5, -2.6, 2.6):
+        fixed.insert(0, ("guess_tempo_parameters", {"pulse": 1.0, "duration": 3.0, "tolerance": 5.0e-2},
+                         0.0, tau))
+    fixed.insert(0, ("tempo_compute", {"pulse": 1.0, "duration": 3.0, "tolerance": 5.0e-2,
+                                       "compute": True}, 0.0, 4.5))
     seen = set()
     for (api, p, start, tau) in fixed + cases:
         try:
@@ -1036,6 +1133,10 @@ def run(tier, seed, replay):
         "rate, real/complex operators) and a shift that moves the probe time 1.0 across u_b.  "
         "far-origin: origins up to 1e5 with on-/off-grid durations, real runs and the real "
         "_get_num_step (step count independent of the origin).  "
+        "estimated parameters: guess_tempo_parameters(system=...) and tempo_compute(parameters=None) "
+        "for a pulse that limits dt, shifts +-2.6 / 4.5 / 1.7: estimated (dt, dkmax, epsrel) identical "
+        "(1e-12), reported times minus tau, logged sample times minus tau, states 1e-5 (guessed "
+        "epsrel ~3e-4), and the sampled times vs the generated linspace expression bit-exact.  "
         "Non-trivial = not a bare variable hand-through; distinct = distinct protocol line / run.")
     res.assumptions = [
         "binary64 model: round-to-nearest-even on rationals, no overflow/subnormal/NaN; dt > 0",
@@ -1062,8 +1163,7 @@ def run(tier, seed, replay):
         "only; that the shape and validity of a callable's value do not depend on the time is a "
         "hypothesis of probe_shift_invariant (a callable that is invalid exactly at t=1.0 is rejected "
         "at one origin and accepted at another - input validation, outside the statement)",
-        "guess_tempo_parameters samples the Hamiltonian on np.linspace(start, end); GibbsTempo has "
-        "no time origin; bath_dynamics has no start_time parameter - outside the statement",
+        "GibbsTempo has no time origin; bath_dynamics has no start_time parameter - outside the statement",
         "PtTebd: only its label expression (PtTebd.time) is covered, no runs",
         "the shift weight is conservative: a covariant expression that multiplies or divides times "
         "(e.g. the midpoint (t0 + t1)/2) is refused and would show up as a broken obligation with "
